@@ -17,7 +17,7 @@ PROP = dict(
 
 META = dict(engine="h_host", design_ref="DESIGN.md section 3, C11",
     technique='Lean 4 loop-invariant and shift-register proofs + specification evaluated on the implementation',
-    text='Proof: who dies (by cohort index, rate and lag), the bookkeeping, rate zero, and eventual death within tracker-length mortality steps for every interleaving with new infection are theorems about the L1 model for every rate in [0,1], lag >= 0 and cohort content. Tied to the code by the declarative mortality specification evaluated on the real Mortality action and exact comparison. Per-host parameters are covered under C16.',
+    text='Proof: who dies (by cohort index, rate and lag), the bookkeeping, rate zero, and eventual death within tracker-length mortality steps for every interleaving with new infection are theorems about the L1 model for every rate in [0,1], lag >= 0 and cohort content. Tied to the code by the declarative mortality specification evaluated on the real Mortality action and exact comparison. Per-host rates and lags from the pest-host table belong to C11 as well (theorem C11_per_host, PROPFAIL C11 per_host_parameters on h_multi / h_mmodel runs).',
     note='Trusted: Lean kernel + propext/Classical.choice/Quot.sound; hand-written L1 model of host_pool.hpp / treatments.hpp / actions.hpp (Model/Host.lean, Treat.lean, Actions.lean); harness and driver. int as unbounded Int; ratios as exact Rat on dyadic inputs (k/64); std::shuffle assumed to produce a permutation (draws are inferred from the observed difference and checked for validity).')
 
 ENGINES = [
